@@ -138,6 +138,10 @@ def o_seq(case):
         cls.append("raise-mode-with-filler")
     if case["stream"] == "socket" and any(case.get("gaps") or []):
         cls.append("socket-delivery-gaps")
+    if case.get("aligned") or any(i.get("aligned") for i in items):
+        cls.append("item-aligned-to-buffer-size")
+    if case.get("ubxlen"):
+        cls.append("ubx-length-at-block-boundary")
     if case.get("long"):
         cls.append("long-stream")
         if len(data) > 1024 * 1024:
@@ -171,12 +175,16 @@ def s_seq(draw, tier):
     case["stream"] = draw(st.sampled_from(["bytesio", "buffered", "socket"]))
     case["parsed"] = draw(st.sampled_from([True, True, False]))
     case["qoe"] = draw(st.sampled_from([0, 1, 2]))
-    n = sum(len(i["b"]) // 2 for i in items)
     if case["stream"] == "buffered":
-        case["bufsize"] = draw(st.sampled_from([1, 2, 3, 7, 16, 64, 4096]))
+        case["bufsize"] = draw(st.sampled_from([1, 2, 3, 7, 16, 64, 4096, 8192, 8192]))  # 8192: what open(path, "rb") uses
     if case["stream"] == "socket":
         case["bufsize"] = draw(st.sampled_from([1, 2, 3, 5, 64, 512, 4096]))
-        case["cuts"] = draw(streams.partitions(n))
+    if case["stream"] != "bytesio" and draw(st.integers(0, 2)) == 0:
+        # an item placed at a chosen distance from a multiple of the buffer size (inert noise in front)
+        case["items"] = items = draw(streams.align_to(items, case["bufsize"]))
+    n = sum(len(i["b"]) // 2 for i in items)
+    if case["stream"] == "socket":
+        case["cuts"] = streams.modulus_cuts(n, case["bufsize"]) if case["bufsize"] > 1 and draw(st.integers(0, 4)) == 0 else draw(streams.partitions(n))
         case["gaps"] = draw(st.one_of(st.just([]), st.lists(st.booleans(), min_size=1, max_size=6)))
     return case
 
@@ -239,14 +247,73 @@ def e_big_socket(tier, shard, nshards):
     yield {"items": items, "stream": "socket", "parsed": True, "qoe": 2, "bufsize": 4096, "cuts": list(range(1400, n, 1400)), "long": len(items)}
 
 
+def e_aligned(tier, shard, nshards):
+    """an item behind a run of inert noise, starting 3 bytes before .. 3 bytes behind a multiple of the stream's
+    buffer size (complete over buffer sizes x distances x item kinds x stream kinds): a reader that looks ahead in
+    what the stream has buffered must not lose the item that straddles the end of the buffer"""
+    from pv import framing as fr
+
+    f0 = {"k": "frame", "b": fr.build_frame(b"\xfe\x80\x00\x01").hex(), "ident": "4072"}
+    f1 = {"k": "frame", "b": fr.build_frame(b"\xfe\x81" + bytes(range(1, 40))).hex(), "ident": "4072"}
+    f2 = {"k": "frame", "b": fr.build_frame(b"\xfe\x82\x07").hex(), "ident": "4072"}
+    things = {
+        "frame": [f1],
+        "ubx": [{"k": "ubx", "b": (b"\xb5\x62\x01\x07\x04\x00\x01\x02\x03\x04\xaa\xbb").hex()}, f1],
+        "nmea": [{"k": "nmea", "b": b"$GNGGA,123519,4807.038,N*47\r\n".hex()}, f1],
+    }
+    k = 0
+    for bs in (512, 4096, 8192):
+        for mult in (1, 2):
+            for d in range(-3, 4):
+                for what in ("frame", "ubx", "nmea"):
+                    for stream in ("buffered", "socket", "bytesio"):
+                        k += 1
+                        if k % nshards != shard:
+                            continue
+                        pad = mult * bs + d - len(f0["b"]) // 2
+                        noise = {"k": "noise", "b": bytes(streams._INERT[(7 * j) % len(streams._INERT)] for j in range(pad)).hex(), "aligned": bs}
+                        items = [f0, noise] + things[what] + [f2]
+                        case = {"items": items, "stream": stream, "parsed": True, "qoe": 2, "bufsize": bs, "aligned": [bs, d]}
+                        if stream == "socket":
+                            case["cuts"] = streams.modulus_cuts(sum(len(i["b"]) // 2 for i in items), bs)
+                        yield case
+
+
+def e_ubx_lengths(tier, shard, nshards):
+    """UBX items whose length field is at, or up to 4 bytes below / 2 above, every multiple of 4096 and every power of
+    two from 256 (complete): a reader that skips or reads foreign items in blocks meets every remainder"""
+    from pv import framing as fr
+
+    f0 = {"k": "frame", "b": fr.build_frame(b"\xfe\x80\x00\x01").hex(), "ident": "4072"}
+    f1 = {"k": "frame", "b": fr.build_frame(b"\xfe\x81\x05\x06\x07").hex(), "ident": "4072"}
+    lens = set()
+    for m in range(1, 17):
+        lens.update(m * 4096 + j for j in range(-4, 3))
+    for e in range(8, 16):
+        lens.update((1 << e) + j for j in range(-4, 3))
+    for n, ln in enumerate(sorted(x for x in lens if 0 <= x <= 65535)):
+        if n % nshards != shard:
+            continue
+        body = bytes((i * 13) & 0x7F | 1 for i in range(ln))
+        u = {"k": "ubx", "b": (b"\xb5\x62\x02\x15" + ln.to_bytes(2, "little") + body + b"\x31\x32").hex(), "ln": ln, "huge": ln >= 32767}
+        case = {"items": [f0, u, f1, u, f0], "stream": ("bytesio", "buffered", "socket")[n % 3], "parsed": True, "qoe": 2, "bufsize": 4096, "ubxlen": ln}
+        if case["stream"] == "socket":
+            case["cuts"] = list(range(1400, 2 * ln + 60, 1400))[:400]
+        yield case
+
+
 def e_all(tier, shard, nshards):
     yield from e_long(tier, shard, nshards)
     yield from e_big_socket(tier, shard, nshards)
+    yield from e_aligned(tier, shard, nshards)
+    yield from e_ubx_lengths(tier, shard, nshards)
 
 
 def _sample(c):
     if c.get("long"):
         return {"long": c["long"], "stream": c["stream"], "items": f"{len(c['items'])} small items"}
+    if c.get("aligned") or c.get("ubxlen"):
+        return {k: (v if k != "items" else [f"{i['k']} of {len(i['b']) // 2} bytes" for i in v]) for k, v in c.items()}
     return {k: (v if k != "items" else [{**i, "b": i["b"][:48] + ("..." if len(i["b"]) > 48 else "")} for i in v]) for k, v in c.items()}
 
 
@@ -258,7 +325,7 @@ SUBS = [
         enum=e_all,
         examples=(150, 4000),
         rule="see property rule",
-        need={"raise-mode-with-filler": 1, "socket-delivery-gaps": 1, "more-than-1MiB-through-one-socket": 1, "long-stream": 1, "ubx-length>=32767": 1, "two-byte-payload-frame": 1, "zero-length-frame": 1, "has-1023-frame": 1, "ubx-with-sync-bytes": 1, "socket": 1, "buffered": 1, "qoe2": 1},
+        need={"raise-mode-with-filler": 1, "socket-delivery-gaps": 1, "more-than-1MiB-through-one-socket": 1, "long-stream": 1, "ubx-length>=32767": 1, "item-aligned-to-buffer-size": 300, "ubx-length-at-block-boundary": 100, "two-byte-payload-frame": 1, "zero-length-frame": 1, "has-1023-frame": 1, "ubx-with-sync-bytes": 1, "socket": 1, "buffered": 1, "qoe2": 1},
         sample=_sample,
     ),
 ]
